@@ -36,7 +36,7 @@ def public_inputs(c, rnd, scale):
     # valid points
     pts = [c.mul_base(rnd.randrange(1, c.n)) for _ in range(4 * scale)]
     pts += [c.mul_base(k) for k in (1, 2, 3, c.n - 1, c.n - 2)]
-    pts += small_x_points(c, 3 * scale)
+    pts += small_x_points(c, 3 * scale, lo=0)  # includes (0, sqrt(b)), a valid point on all three curves
     for (x, y) in pts:
         items.append(("valid", enc(x, y)))
         items.append(("valid_negated", enc(x, p - y)))
@@ -98,6 +98,8 @@ def public_inputs(c, rnd, scale):
         if L != c.npk:
             items.append(("wrong_length", (valid * 3)[:L]))
     items.append(("wrong_length", valid + b"\x00"))
+    for alias in (256, 65536, 131072):
+        items.append(("wrong_length_alias", valid + bytes(alias)))
     items.append(("wrong_length_long", valid * 40))
     for _ in range(3 * scale):
         items.append(("random_bytes", bytes([4]) + bytes(rnd.getrandbits(8) for _ in range(2 * W))))
@@ -126,6 +128,8 @@ def private_inputs(c, rnd, scale):
     for L in range(0, 2 * W + 3):
         if L != W:
             items.append(("wrong_length", (good * 3)[:L]))
+    for alias in (256, 65536):
+        items.append(("wrong_length_alias", good + bytes(alias)))
     return items
 
 
